@@ -77,7 +77,7 @@ class error_997_visitor(error_visitor.error_visitor):
         isa_seg.append(self._clean(seg.get_value('ISA06'), 15))
         isa_seg.append(time.strftime('%y%m%d'))  # Date
         isa_seg.append(time.strftime('%H%M'))  # Time
-        isa_seg.append(self._clean(seg.get_value('ISA11'), 1))
+        isa_seg.append('U')  # ISA11 of a 00401 interchange, whatever the (last) source ISA says
         isa_seg.append(icvn)
         isa_seg.append(self.isa_control_num)  # ISA Interchange Control Number
         isa_seg.append('0') # No need for TA1 response to 997
@@ -95,12 +95,16 @@ class error_997_visitor(error_visitor.error_visitor):
         gs_seg.append(self._clean(seg.get_value('GS02')).rstrip())
         gs_seg.append(time.strftime('%Y%m%d'))
         gs_seg.append(time.strftime('%H%M%S'))
-        gs_seg.append(self._clean(seg.get_value('GS06')))
+        gs06 = (self._clean(seg.get_value('GS06')) or '').strip()
+        if gs06 == '':
+            # nothing to reuse: GS06 and GE02 of this document must still match
+            gs06 = '%i' % int(self.isa_control_num)
+        gs_seg.append(gs06)
         gs_seg.append(self._clean(seg.get_value('GS07')))
         gs_seg.append('004010')  # GS08 is the version/release code, not the ISA12 value
         self._write(gs_seg)
         self.gs_seg = gs_seg
-        self.gs_id = self._clean(seg.get_value('GS06'))
+        self.gs_id = gs06
         #self.gs_997_count = 0
         self.st_loop_count = 0
         self.gs_loop_count += 1
